@@ -1,3 +1,4 @@
+import Firebolt.TransExpected
 import Firebolt.Properties.TransBase
 import Firebolt.Model.MainLoop
 import Firebolt.Generated.Skeleton
@@ -111,12 +112,8 @@ is closed, the wait for the workers is bounded by the configured `shutdowntimeou
 exactly when that wait timed out, and in both cases Execute goes on: the message sender is shut down and the function
 returns -/
 theorem translated_executeTail (σ : Env) :
-    obs Trans.exExecuteTail σ =
-      ⟨[("foreach e.rootNodes: close", [σ "rootNode.Ch"]),
-        ("waitTimeout", [σ "&e.wg", wrap64 (σ "e.config.ShutdownTimeOut" * σ "time.Second")])] ++
-        (if σ "waitTimeout#0" ≠ 0 then [("foreach e.rootNodes: e.stopWorkers", [σ "rootNode"])] else []) ++
-        [("message.ShutdownKafkaSender", [])], none, false⟩ := by
-  by_cases h : σ "waitTimeout#0" = 0 <;> minigo_simp [Trans.exExecuteTail, h]
+    obs Trans.exExecuteTail σ = TransExpected.exExecuteTail σ := by
+  by_cases h : σ "waitTimeout#0" = 0 <;> minigo_simp [Trans.exExecuteTail, TransExpected.exExecuteTail, h]
 
 /-- waitTimeout, translated: a goroutine waits for the WaitGroup and closes `c`; the timer is armed with the timeout handed
 in; the result is `false` exactly when `c` fires first and `true` exactly when the timer does — nothing else is waited for -/
